@@ -4,9 +4,8 @@ import RbV.Ref.Gotoh
 namespace RbV.AlignCodec
 open RbV.Codec RbV.Align
 
-/-- `MIN_SCORE` of `bio::alignment::pairwise` (the harness reports the constant of the tree under test in
-the `const` case, the driver compares) -/
-def minScore : Int := -858993459
+/- `MIN_SCORE` is `Align.minScore` (the harness reports the constant of the tree under test in the `const`
+case, the driver compares). -/
 
 /-- substitution function from an alphabet and a row-major `|A|×|A|` table; 0 outside the alphabet
 (the harness refuses sequences with symbols outside the alphabet) -/
